@@ -182,6 +182,7 @@ TM_TYPES = [(r'^nano::rwlearner_t$|^' + UP + r'[^:]*>$', 'struct nv_rwl'),
             (r'^nano::(table_|affine_|single_feature_)?wlearner_t$|' + UP + r'.*>::pointer$', 'struct nv_wlobj'),
             (r'^nano::tensor4d_t$|tensor_t<nano::tensor_vector_storage_t, double, 4>', 'struct nv_t4m'),
             (r'^nano::tensor4d_dims_t$|^nano::tensor_dims_t<4>$|^std::array<long, 4', 'struct nv_dims4'),
+            (r'^nano::tensor1d_dims_t$|^nano::tensor_dims_t<1>$|^std::array<long, 1', 'int64_t'),      # dims of a rank-1 tensor: its size
             (r'^nano::hashes_t$|tensor_t<nano::tensor_vector_storage_t, unsigned long, 1>', 'struct nv_t1u'),
             (r'^nano::indices_t$|tensor_t<nano::tensor_vector_storage_t, long, 1>', 'struct nv_t1i'),
             (r'Eigen::Map<(const )?Eigen::Matrix<double, -1, 1', 'struct nv_vec')]
@@ -189,11 +190,16 @@ TM_CALLS = [(r'^dynamic_cast\|nano::table_wlearner_t \*\|nano::wlearner_t \*', '
             (r'^dynamic_cast\|nano::affine_wlearner_t \*\|nano::wlearner_t \*', 'nv_dyncast_affine({0})'),
             (r'^dynamic_cast\|nano::single_feature_wlearner_t \*\|nano::wlearner_t \*', 'nv_dyncast_sfw({0})'),
             (r'^operator==\|bool \(const tensor_dims_t<4UL> &, const tensor_dims_t<4UL> &\)', 'nv_dims4_eq'),
+            (r'^operator!=\|bool \(const tensor_dims_t<4UL> &, const tensor_dims_t<4UL> &\)', '(!nv_dims4_eq({&0}, {&1}))'),
+            # std::array<long, 1> ==: element-wise, i.e. the one dimension
+            (r'^operator==\|bool \(const tensor_dims_t<1UL> &, const tensor_dims_t<1UL> &\)', '(({0}) == ({1}))'),
+            (r'^operator!=\|bool \(const tensor_dims_t<1UL> &, const tensor_dims_t<1UL> &\)', '(({0}) != ({1}))'),
             (r'^operator==\|.*\|nano::tensor_t<nano::tensor_vector_storage_t, unsigned long, 1>', 'nv_t1u_eq'),
             (r'^operator==\|.*\|nano::tensor_t<nano::tensor_vector_storage_t, long, 1>', 'nv_t1i_eq'),
             (r'^operator\+=\|.*\|Eigen::MatrixBase<Eigen::Map<Eigen::Matrix<double, -1, 1, 0>, 0>\s*>', 'nv_vec_add({&0}, {1})')]
 TM_MEMBERS = [(r'^get\|' + UP, '{self}->ptr'), (r'^size\|nano::tensor_base_t<(unsigned )?long, 1', '{self}->n'),
               (r'^dims\|nano::tensor_base_t<double, 4', '{self}->dims'),
+              (r'^dims\|nano::tensor_base_t<(unsigned )?long, 1', '{self}->n'),
               (r'^vector\|nano::tensor_t<nano::tensor_vector_storage_t, double, 4>', 'nv_t4m_vector'),
               (r'^hashes\|nano::table_wlearner_t', '(*{self}).m_hashes'), (r'^hash2tables\|nano::table_wlearner_t', '(*{self}).m_hash2tables'),
               (r'^tables\|nano::single_feature_wlearner_t', '(*{self}).m_tables'),
@@ -321,6 +327,46 @@ def dtree_fit_fn():
               members=DF_MEMBERS, hooks=[nvhooks.param_hook(), size0_hook(DTREE_CPP)])
 
 
+FIT_PAIR = r'std::pair<double, long>'
+FIT_TYPES = [(r'^std::vector<\(anonymous namespace\)::cache_t>$|^std::vector<cache_t>$', 'struct nv_cvec'),
+             (r'^\(anonymous namespace\)::cache_t$|^cache_t$|cache_t>::value_type$', 'struct nv_fitcache'),
+             (r'^nano::tensor4d_t$|^nano::tensor_t<nano::tensor_vector_storage_t, double, 4>$', 'struct nv_t4'), (T1I, 'struct nv_t1i'),
+             (r'^nano::scalar_cmap_t$|^nano::tensor_t<nano::tensor_carray_storage_t, double, 1>$', 'struct nv_t1dv'),
+             (r'^nano::wlearner_criterion$', 'uint8_t'), (r'^nano::hinge_type$', 'uint8_t'),
+             (r'^' + FIT_PAIR + r'$|^std::vector<' + FIT_PAIR + r'.*>::value_type$|__alloc_traits<std::allocator<' + FIT_PAIR + r'.*>::value_type$', 'struct nv_ival'),
+             (r'^std::vector<' + FIT_PAIR + r'\s*>$|ivalues_t$', 'struct nv_ivec'),
+             (r'^nano::wlearner::accumulator_t$', 'struct nv_acc'), (r'^std::tuple<double, double>$|^tuple<typename __decay_and_strip<double &>::__type, typename __decay_and_strip<double &>::__type>$', 'struct nv_tuple2'),
+             (r'^Eigen::ArrayWrapper<Eigen::Map<|^Eigen::CwiseUnaryOp<Eigen::internal::scalar_square_op<double>, const Eigen::ArrayWrapper<|SquareReturnType$', 'struct nv_grow')]
+FIT_CALLS = [(r'^operator\[\]\|.*\|std::vector<(\(anonymous namespace\)::)?cache_t', '(*nv_cvec_at({&0}, {1}))'),
+             (r'^operator\[\]\|.*\|std::vector<' + FIT_PAIR, '(*nv_ivec_at({&0}, {1}))'),
+             (r'^operator<\|.*\|' + FIT_PAIR, 'nv_pair_lt'),            # std::pair relational operator: lexicographic
+             (r'^operator\(\)\|typename tbase::tconstref \(const nano::tensor_size_t\) const\|', '{0}.p[{1}]'),
+             (r'^operator=\|.*\|Eigen::ArrayWrapper<Eigen::Map<Eigen::Matrix<double', 'nv_row_store({0}, {1}, cache)'),
+             (r'^sort\|', 'nv_sort({0}, {1}, &self->m_ivalues)'), (r'^make_tuple\|', '(struct nv_tuple2){ {0}, {1} }')]
+FIT_MEMBERS = [(r'^clear\|(\(anonymous namespace\)::)?cache_t', 'nv_cache_clear({self})'),
+               (r'^clear\|nano::wlearner::accumulator_t\|#0', 'nv_acc_clear'), (r'^clear\|std::vector<' + FIT_PAIR, 'nv_ivec_clear'),
+               (r'^reserve\|std::vector<' + FIT_PAIR, '@drop'),
+               (r'^size\|std::vector<' + FIT_PAIR, '{self}->n'), (r'^size\|nano::tensor_base_t<double, 1', '{self}->n'),
+               (r'^begin\|std::vector<' + FIT_PAIR, '((uint64_t)0)'), (r'^end\|std::vector<' + FIT_PAIR, '{self}->n'),
+               (r'^emplace_back\|std::vector<' + FIT_PAIR, 'nv_ivec_push({self}, {0}, {&1})'),
+               (r'^update\|nano::wlearner::accumulator_t\|#2', 'nv_acc_update({self}, {0})'),            # (vgrad, bin = 0)
+               (r'^update\|nano::wlearner::accumulator_t\|#3', 'nv_acc_update_x({self}, {0}, {1})'),      # (value, vgrad, bin = 0)
+               (r'^array\|nano::tensor_t<nano::tensor_vector_storage_t, double, 4>', 'nv_t4_array({self}, {&0}, {0})'),   # (where the row index is read from, its value)
+               (r'^square\|Eigen::ArrayBase<Eigen::ArrayWrapper<', 'nv_square({*self})'), (r'^sum\|Eigen::DenseBase<Eigen::CwiseUnaryOp<Eigen::internal::scalar_square_op', 'nv_sqsum({*self})'),
+               (r'^score\|(\(anonymous namespace\)::)?cache_t', 'nv_candidate({self}, NV_SIDE_NONE, 0.0, 0, {0}, {1}, {2})'),
+               (r'^output_neg\|', 'nv_coef_of({self}, NV_SIDE_NEG)'), (r'^output_pos\|', 'nv_coef_of({self}, NV_SIDE_POS)')]
+
+
+def fit_fns(cls):
+    """stump / hinge: cache_t::clear and the per-feature callback of do_fit (the threshold sweep)"""
+    cpp = f'src/wlearner/{cls}.cpp'
+    k = dict(types=FIT_TYPES, calls=FIT_CALLS, members=FIT_MEMBERS)
+    clear = Fn(f'{cls}_cache_clear', cpp, 'clear', flt='cache_t::clear', self_struct='struct nv_fitcache',
+               select=lambda d: len(astload.param_types(d)) == 3, **k)
+    sweep = Fn(f'{cls}_fit_sweep', cpp, 'do_fit', flt=f'{cls}_wlearner_t::do_fit', lambda_index=0, captures=True, **k)
+    return dict(clear=clear, sweep=sweep)
+
+
 def iter_loop_hook(code, elem):
     """iterator.loop(samples, feature, callback): the lambda is not translated; the overload that was resolved (by the
     std::function parameter type of the callee) must be the one for the expected kind of feature values"""
@@ -422,6 +468,10 @@ def build(tier):
                calls=[(r'^max\|const double &\(const double &, const double &\)', 'nv_max_d({0}, {1})'), (r'^epsilon\|', '(NV_EPS)'),
                       (r'^AIC\|', 'nv_AIC'), (r'^AICc\|', 'nv_AICc'), (r'^BIC\|', 'nv_BIC')])
     targets.append(Target('make_score', [score], 'specs/C10/criterion.h'))
+    for cls in ('stump',):
+        f = fit_fns(cls)
+        targets.append(Target(f'{cls}_cache_clear', [f['clear']], 'specs/C10/fit.h', defines=['NV_FIT_CLEAR']))
+        targets.append(Target(f'{cls}_fit_sweep', [f['sweep']], 'specs/C10/fit.h'))
     MH = 'specs/C10/trymerge.h'
     t = try_merge_fns()
     targets.append(Target('base_try_merge', [t['base']], MH))
